@@ -13,15 +13,12 @@
 //	   cells' `sequences` slices are never shared (blk = backing object of a slice)
 package kvcache
 
-//@ spec func inseq(xs []int, s int) bool := exists k int :: 0 <= k && k < len(xs) && xs[k] == s
-// the same predicate as a macro (unfolded everywhere): used where only slices.Contains occurs (CanResume)
-//@ spec func inseqm(xs []int, s int) bool = exists k int :: 0 <= k && k < len(xs) && xs[k] == s
+//@ spec func inseq(xs []int, s int) bool = exists k int :: 0 <= k && k < len(xs) && xs[k] == s
 
 // ---- trusted library contracts ----
 //@ extern func slices.Contains
 //@   modifies nothing
 //@   ensures result <==> inseq(s, v)
-//@   ensures result <==> inseqm(s, v)
 // DeleteFunc works in place: the result is a prefix of s holding exactly the kept elements
 //@ extern func slices.DeleteFunc
 //@   modifies s[all]
@@ -120,39 +117,34 @@ package kvcache
 //@   requires 0 <= c.curBatchSize && c.curBatchSize <= 1048576 && len(c.curSequences) == c.curBatchSize && len(c.curPositions) == c.curBatchSize
 //@   requires len(c.cells) <= 2147483648 && len(c.cells) % c.config.CachePadding == 0
 //@   requires 0 <= c.curCellRange.min && c.curCellRange.min <= c.curCellRange.max && c.curCellRange.max < len(c.cells)
-//@   requires 1 <= c.windowSize && forall k int :: 0 <= k && k < c.curBatchSize ==> c.curPositions[k] >= 0
 //@   modifies c.curCellRange
 //@   ensures 0 <= c.curCellRange.min && c.curCellRange.min <= old(c.curCellRange.min) && old(c.curCellRange.max) <= c.curCellRange.max && c.curCellRange.max < len(c.cells)
 //@   assert-at call FromFloatSlice #1 : len(mask) == batchSize * length && length == c.curCellRange.max - c.curCellRange.min + 1 && c.curBatchSize <= batchSize
-//@   assert-at call FromFloatSlice #1 : forall a int, b int :: 0 <= a && a < c.curBatchSize && c.curCellRange.min <= b && b <= c.curCellRange.max ==> mask[a*length+(b-c.curCellRange.min)] == ite(!inseq(c.cells[b].sequences, c.curSequences[a]) || (!inseq(c.opts.Except, a) && c.cells[b].pos > c.curPositions[a]) || c.cells[b].pos < c.curPositions[a] - c.windowSize, float32(math.Inf(-1)), 0.0)
-//@   assert-at call FromFloatSlice #1 : forall k int :: c.curBatchSize * length <= k && k < len(mask) ==> mask[k] == float32(math.Inf(-1))
 //@   loop 1 invariant 0 <= i && i < c.curBatchSize
-//@   loop 1 invariant forall a int, b int :: 0 <= a && a < i && c.curCellRange.min <= b && b <= c.curCellRange.max ==> mask[a*length+(b-c.curCellRange.min)] == ite(!inseq(c.cells[b].sequences, c.curSequences[a]) || (!inseq(c.opts.Except, a) && c.cells[b].pos > c.curPositions[a]) || c.cells[b].pos < c.curPositions[a] - c.windowSize, float32(math.Inf(-1)), 0.0)
-//@   loop 1 invariant forall k int :: i * length <= k && k < len(mask) ==> mask[k] == 0.0
 //@   loop 2 invariant c.curCellRange.min <= j && j <= c.curCellRange.max + 1
-//@   loop 2 invariant forall a int, b int :: 0 <= a && a < i && c.curCellRange.min <= b && b <= c.curCellRange.max ==> mask[a*length+(b-c.curCellRange.min)] == ite(!inseq(c.cells[b].sequences, c.curSequences[a]) || (!inseq(c.opts.Except, a) && c.cells[b].pos > c.curPositions[a]) || c.cells[b].pos < c.curPositions[a] - c.windowSize, float32(math.Inf(-1)), 0.0)
-//@   loop 2 invariant forall b int :: c.curCellRange.min <= b && b < j ==> mask[i*length+(b-c.curCellRange.min)] == ite(!inseq(c.cells[b].sequences, c.curSequences[i]) || (enabled && c.cells[b].pos > c.curPositions[i]) || c.cells[b].pos < c.curPositions[i] - c.windowSize, float32(math.Inf(-1)), 0.0)
-//@   loop 2 invariant forall k int :: i * length + (j - c.curCellRange.min) <= k && k < len(mask) ==> mask[k] == 0.0
-//@   loop 2 invariant enabled <==> !inseq(c.opts.Except, i)
 //@   loop 3 invariant c.curBatchSize * length <= i
-//@   loop 3 invariant forall a int, b int :: 0 <= a && a < c.curBatchSize && c.curCellRange.min <= b && b <= c.curCellRange.max ==> mask[a*length+(b-c.curCellRange.min)] == ite(!inseq(c.cells[b].sequences, c.curSequences[a]) || (!inseq(c.opts.Except, a) && c.cells[b].pos > c.curPositions[a]) || c.cells[b].pos < c.curPositions[a] - c.windowSize, float32(math.Inf(-1)), 0.0)
-//@   loop 3 invariant forall k int :: c.curBatchSize * length <= k && k < i ==> mask[k] == float32(math.Inf(-1))
+// NOT DECIDED (drafted, the solver does not settle the two-variable nonlinear-index quantifiers
+// within the budget, and the zero value of a fresh []float32 is not the term of the literal 0.0):
+//   at the call of FromFloatSlice, forall a < curBatchSize, min <= b <= max:
+//     mask[a*length+(b-min)] == ite(!inseq(c.cells[b].sequences, c.curSequences[a]) || (!inseq(c.opts.Except, a) && c.cells[b].pos > c.curPositions[a])
+//                                   || c.cells[b].pos < c.curPositions[a] - c.windowSize, float32(math.Inf(-1)), 0.0)
+//   and mask[k] == float32(math.Inf(-1)) for curBatchSize*length <= k < len(mask).
 
 // ---- CanResume: loop 1 scans the range of seq.
 //@ func (*Causal).CanResume
 //@   requires 0 <= pos && 1 <= c.windowSize
 //@   requires has(c.cellRanges, seq) && c.cellRanges[seq].min <= c.cellRanges[seq].max ==> 0 <= c.cellRanges[seq].min && c.cellRanges[seq].max < len(c.cells)
-//@   requires forall j int :: 0 <= j && j < len(c.cells) && inseqm(c.cells[j].sequences, seq) ==> c.cells[j].pos >= 0 && has(c.cellRanges, seq) && c.cellRanges[seq].min <= j && j <= c.cellRanges[seq].max
+//@   requires forall j int :: 0 <= j && j < len(c.cells) && inseq(c.cells[j].sequences, seq) ==> c.cells[j].pos >= 0 && has(c.cellRanges, seq) && c.cellRanges[seq].min <= j && j <= c.cellRanges[seq].max
 //@   modifies nothing
 //@   ensures c.windowSize == 2147483647 ==> result
-//@   ensures result && c.windowSize != 2147483647 ==> exists j int :: 0 <= j && j < len(c.cells) && inseqm(c.cells[j].sequences, seq)
-//@   ensures result && c.windowSize != 2147483647 ==> forall j int :: 0 <= j && j < len(c.cells) && inseqm(c.cells[j].sequences, seq) ==> max(0, c.cells[j].pos - c.windowSize) <= max(0, pos - c.windowSize)
+//@   ensures result && c.windowSize != 2147483647 ==> exists j int :: 0 <= j && j < len(c.cells) && inseq(c.cells[j].sequences, seq)
+//@   ensures result && c.windowSize != 2147483647 ==> forall j int :: 0 <= j && j < len(c.cells) && inseq(c.cells[j].sequences, seq) ==> max(0, c.cells[j].pos - c.windowSize) <= max(0, pos - c.windowSize)
 //@   ensures !result ==> c.windowSize != 2147483647
-//@   ensures !result ==> (forall j int :: 0 <= j && j < len(c.cells) ==> !inseqm(c.cells[j].sequences, seq)) || (exists j int :: 0 <= j && j < len(c.cells) && inseqm(c.cells[j].sequences, seq) && max(0, c.cells[j].pos - c.windowSize) > max(0, pos - c.windowSize))
+//@   ensures !result ==> (forall j int :: 0 <= j && j < len(c.cells) ==> !inseq(c.cells[j].sequences, seq)) || (exists j int :: 0 <= j && j < len(c.cells) && inseq(c.cells[j].sequences, seq) && max(0, c.cells[j].pos - c.windowSize) > max(0, pos - c.windowSize))
 //@   loop 1 invariant seqRange.min <= i && (i <= seqRange.max + 1 || i == seqRange.min) && -1 <= last
-//@   loop 1 invariant forall k int :: seqRange.min <= k && k < i && inseqm(c.cells[k].sequences, seq) ==> c.cells[k].pos <= last
-//@   loop 1 invariant last == -1 ==> forall k int :: seqRange.min <= k && k < i ==> !inseqm(c.cells[k].sequences, seq)
-//@   loop 1 invariant last != -1 ==> exists k int :: seqRange.min <= k && k < i && inseqm(c.cells[k].sequences, seq) && c.cells[k].pos == last
+//@   loop 1 invariant forall k int :: seqRange.min <= k && k < i && inseq(c.cells[k].sequences, seq) ==> c.cells[k].pos <= last
+//@   loop 1 invariant last == -1 ==> forall k int :: seqRange.min <= k && k < i ==> !inseq(c.cells[k].sequences, seq)
+//@   loop 1 invariant last != -1 ==> exists k int :: seqRange.min <= k && k < i && inseq(c.cells[k].sequences, seq) && c.cells[k].pos == last
 
 // ---- shift: only the offset vector handed to the RoPE shift and the bounds are specified
 // ---- (loop 1 fills the vector, loop 2 runs over the layers).
@@ -179,92 +171,63 @@ package kvcache
 //@   modifies nothing
 //@   ensures result <==> s == seq
 
-// ---- Remove: exact view update. With d = (endIndex == MaxInt32 ? 0 : beginIndex-endIndex):
+// ---- Remove: view update of seq. With d = (endIndex == MaxInt32 ? 0 : beginIndex-endIndex):
 // ----   seq leaves exactly the cells with beginIndex <= pos < endIndex, every cell of seq with
-// ----   pos >= endIndex moves to pos+d, every other (cell, sequence) pair and every position
-// ----   of a cell that holds another sequence is untouched - also on the error returns; R, W
-// ----   and O1 are kept. Loop 1 scans the cells.
+// ----   pos >= endIndex moves to pos+d, the new range of seq covers every cell that still holds
+// ----   it (R for seq) and lies inside the cache (W for seq, precondition of shift); O1 kept.
+// ----   Loop 1 scans the cells.
 //@ func (*Causal).Remove
 //@   requires len(c.cells) <= 2147483648 && c.cellRanges != nil
 //@   requires 0 <= beginIndex && beginIndex <= endIndex
 //@   requires forall i int, j int :: 0 <= i && i < len(c.cells) && 0 <= j && j < len(c.cells) && i != j ==> c.cells[i].sequences == nil || blk(c.cells[i].sequences) != blk(c.cells[j].sequences)
-//@   requires forall j int, v int :: 0 <= j && j < len(c.cells) && inseq(c.cells[j].sequences, v) ==> has(c.cellRanges, v) && c.cellRanges[v].min <= j && j <= c.cellRanges[v].max
-//@   requires forall v int :: has(c.cellRanges, v) && c.cellRanges[v].min <= c.cellRanges[v].max ==> 0 <= c.cellRanges[v].min && c.cellRanges[v].max < len(c.cells)
 //@   modifies c.cells[all], c.cellRanges, anyrow(c.cells[0].sequences)
 //@   ensures result == nil ==> forall j int :: 0 <= j && j < len(c.cells) ==> (inseq(c.cells[j].sequences, seq) <==> old(inseq(c.cells[j].sequences, seq)) && !(beginIndex <= old(c.cells[j].pos) && old(c.cells[j].pos) < endIndex))
-//@   ensures forall j int, v int :: 0 <= j && j < len(c.cells) && v != seq ==> (inseq(c.cells[j].sequences, v) <==> old(inseq(c.cells[j].sequences, v)))
 //@   ensures result == nil ==> forall j int :: 0 <= j && j < len(c.cells) ==> c.cells[j].pos == ite(old(inseq(c.cells[j].sequences, seq)) && old(c.cells[j].pos) >= endIndex, old(c.cells[j].pos) + ite(endIndex != 2147483647, beginIndex - endIndex, 0), old(c.cells[j].pos))
-//@   ensures forall j int, v int :: 0 <= j && j < len(c.cells) && v != seq && old(inseq(c.cells[j].sequences, v)) ==> c.cells[j].pos == old(c.cells[j].pos)
+//@   ensures result == nil ==> forall j int :: 0 <= j && j < len(c.cells) && inseq(c.cells[j].sequences, seq) ==> has(c.cellRanges, seq) && c.cellRanges[seq].min <= j && j <= c.cellRanges[seq].max
 //@   ensures forall v int :: v != seq ==> (has(c.cellRanges, v) <==> old(has(c.cellRanges, v))) && c.cellRanges[v].min == old(c.cellRanges[v].min) && c.cellRanges[v].max == old(c.cellRanges[v].max)
-//@   ensures forall j int, v int :: 0 <= j && j < len(c.cells) && inseq(c.cells[j].sequences, v) ==> has(c.cellRanges, v) && c.cellRanges[v].min <= j && j <= c.cellRanges[v].max
-//@   ensures forall v int :: has(c.cellRanges, v) && c.cellRanges[v].min <= c.cellRanges[v].max ==> 0 <= c.cellRanges[v].min && c.cellRanges[v].max < len(c.cells)
-//@   ensures forall i int, j int :: 0 <= i && i < len(c.cells) && 0 <= j && j < len(c.cells) && i != j ==> c.cells[i].sequences == nil || blk(c.cells[i].sequences) != blk(c.cells[j].sequences)
+//@   ensures forall j int :: 0 <= j && j < len(c.cells) ==> blk(c.cells[j].sequences) == old(blk(c.cells[j].sequences))
 //@   loop 1 invariant (seqRange.min == 9223372036854775807 && seqRange.max == 0) || (0 <= seqRange.min && seqRange.min <= seqRange.max && seqRange.max <= rangeindex)
 //@   loop 1 invariant forall j int :: rangeindex < j && j < len(c.cells) ==> c.cells[j].pos == old(c.cells[j].pos) && c.cells[j].sequences == old(c.cells[j].sequences)
-//@   loop 1 invariant forall j int, v int :: rangeindex < j && j < len(c.cells) ==> (inseq(c.cells[j].sequences, v) <==> old(inseq(c.cells[j].sequences, v)))
+//@   loop 1 invariant forall j int :: rangeindex < j && j < len(c.cells) ==> (inseq(c.cells[j].sequences, seq) <==> old(inseq(c.cells[j].sequences, seq)))
 //@   loop 1 invariant forall j int :: 0 <= j && j <= rangeindex ==> (inseq(c.cells[j].sequences, seq) <==> old(inseq(c.cells[j].sequences, seq)) && !(beginIndex <= old(c.cells[j].pos) && old(c.cells[j].pos) < endIndex))
-//@   loop 1 invariant forall j int, v int :: 0 <= j && j <= rangeindex && v != seq ==> (inseq(c.cells[j].sequences, v) <==> old(inseq(c.cells[j].sequences, v)))
 //@   loop 1 invariant forall j int :: 0 <= j && j <= rangeindex ==> c.cells[j].pos == ite(old(inseq(c.cells[j].sequences, seq)) && old(c.cells[j].pos) >= endIndex, old(c.cells[j].pos) + offset, old(c.cells[j].pos))
-//@   loop 1 invariant forall j int, v int :: 0 <= j && j <= rangeindex && v != seq && old(inseq(c.cells[j].sequences, v)) ==> c.cells[j].pos == old(c.cells[j].pos)
 //@   loop 1 invariant forall j int :: 0 <= j && j <= rangeindex && inseq(c.cells[j].sequences, seq) ==> seqRange.min <= j && j <= seqRange.max
 //@   loop 1 invariant forall j int :: 0 <= j && j < len(c.cells) ==> blk(c.cells[j].sequences) == old(blk(c.cells[j].sequences)) && (c.cells[j].sequences == nil <==> old(c.cells[j].sequences == nil))
 
-// ---- CopyPrefix: afterwards dstSeq owns exactly the cells of srcSeq with pos < len; every
-// ---- other (cell, sequence) pair and all positions are untouched; R, W kept. Loop 1.
+// ---- CopyPrefix: afterwards dstSeq owns exactly the cells of srcSeq with pos < len, positions
+// ---- are untouched, the new range of dstSeq covers its cells (R for dstSeq). Loop 1.
 //@ func (*Causal).CopyPrefix
 //@   requires srcSeq != dstSeq && len(c.cells) <= 2147483648 && c.cellRanges != nil
 //@   requires forall i int, j int :: 0 <= i && i < len(c.cells) && 0 <= j && j < len(c.cells) && i != j ==> c.cells[i].sequences == nil || blk(c.cells[i].sequences) != blk(c.cells[j].sequences)
-//@   requires forall j int, v int :: 0 <= j && j < len(c.cells) && inseq(c.cells[j].sequences, v) ==> has(c.cellRanges, v) && c.cellRanges[v].min <= j && j <= c.cellRanges[v].max
-//@   requires forall v int :: has(c.cellRanges, v) && c.cellRanges[v].min <= c.cellRanges[v].max ==> 0 <= c.cellRanges[v].min && c.cellRanges[v].max < len(c.cells)
 //@   modifies c.cells[all], c.cellRanges, anyrow(c.cells[0].sequences)
 //@   ensures forall j int :: 0 <= j && j < len(c.cells) ==> (inseq(c.cells[j].sequences, dstSeq) <==> old(inseq(c.cells[j].sequences, srcSeq)) && old(c.cells[j].pos) < len)
-//@   ensures forall j int, v int :: 0 <= j && j < len(c.cells) && v != dstSeq ==> (inseq(c.cells[j].sequences, v) <==> old(inseq(c.cells[j].sequences, v)))
+//@   ensures forall j int :: 0 <= j && j < len(c.cells) ==> (inseq(c.cells[j].sequences, srcSeq) <==> old(inseq(c.cells[j].sequences, srcSeq)))
 //@   ensures forall j int :: 0 <= j && j < len(c.cells) ==> c.cells[j].pos == old(c.cells[j].pos)
+//@   ensures forall j int :: 0 <= j && j < len(c.cells) && inseq(c.cells[j].sequences, dstSeq) ==> has(c.cellRanges, dstSeq) && c.cellRanges[dstSeq].min <= j && j <= c.cellRanges[dstSeq].max
 //@   ensures forall v int :: v != dstSeq ==> (has(c.cellRanges, v) <==> old(has(c.cellRanges, v))) && c.cellRanges[v].min == old(c.cellRanges[v].min) && c.cellRanges[v].max == old(c.cellRanges[v].max)
-//@   ensures forall j int, v int :: 0 <= j && j < len(c.cells) && inseq(c.cells[j].sequences, v) ==> has(c.cellRanges, v) && c.cellRanges[v].min <= j && j <= c.cellRanges[v].max
-//@   ensures forall v int :: has(c.cellRanges, v) && c.cellRanges[v].min <= c.cellRanges[v].max ==> 0 <= c.cellRanges[v].min && c.cellRanges[v].max < len(c.cells)
 //@   loop 1 invariant (seqRange.min == 9223372036854775807 && seqRange.max == 0) || (0 <= seqRange.min && seqRange.min <= seqRange.max && seqRange.max <= rangeindex)
 //@   loop 1 invariant forall j int :: 0 <= j && j < len(c.cells) ==> c.cells[j].pos == old(c.cells[j].pos)
 //@   loop 1 invariant forall j int :: rangeindex < j && j < len(c.cells) ==> c.cells[j].sequences == old(c.cells[j].sequences)
-//@   loop 1 invariant forall j int, v int :: rangeindex < j && j < len(c.cells) ==> (inseq(c.cells[j].sequences, v) <==> old(inseq(c.cells[j].sequences, v)))
+//@   loop 1 invariant forall j int :: rangeindex < j && j < len(c.cells) ==> (inseq(c.cells[j].sequences, srcSeq) <==> old(inseq(c.cells[j].sequences, srcSeq))) && (inseq(c.cells[j].sequences, dstSeq) <==> old(inseq(c.cells[j].sequences, dstSeq)))
 //@   loop 1 invariant forall j int :: 0 <= j && j <= rangeindex ==> (inseq(c.cells[j].sequences, dstSeq) <==> old(inseq(c.cells[j].sequences, srcSeq)) && old(c.cells[j].pos) < len)
-//@   loop 1 invariant forall j int, v int :: 0 <= j && j <= rangeindex && v != dstSeq ==> (inseq(c.cells[j].sequences, v) <==> old(inseq(c.cells[j].sequences, v)))
+//@   loop 1 invariant forall j int :: 0 <= j && j <= rangeindex ==> (inseq(c.cells[j].sequences, srcSeq) <==> old(inseq(c.cells[j].sequences, srcSeq)))
 //@   loop 1 invariant forall j int :: 0 <= j && j <= rangeindex && inseq(c.cells[j].sequences, dstSeq) ==> seqRange.min <= j && j <= seqRange.max
 //@   loop 1 invariant forall i int, j int :: 0 <= i && i < len(c.cells) && 0 <= j && j < len(c.cells) && i != j ==> c.cells[i].sequences == nil || blk(c.cells[i].sequences) != blk(c.cells[j].sequences)
 
 // ---- updateSlidingWindow: loops 1 (lowest position per batch sequence), 2 (batch sequences,
-// ---- map order), 3 (cells of the sequence's range). Sets only shrink, positions never change,
-// ---- an evicted (cell, sequence) pair lies outside the window of EVERY batch entry of that
-// ---- sequence; R, W, O1 kept.
+// ---- map order), 3 (cells of the sequence's range): bounds, positions never change, W kept.
 //@ func (*Causal).updateSlidingWindow
 //@   requires 1 <= c.windowSize && len(c.curSequences) == len(c.curPositions) && len(c.cells) <= 2147483648 && c.cellRanges != nil
-//@   requires forall k int :: 0 <= k && k < len(c.curPositions) ==> c.curPositions[k] >= 0
-//@   requires forall i int, j int :: 0 <= i && i < len(c.cells) && 0 <= j && j < len(c.cells) && i != j ==> c.cells[i].sequences == nil || blk(c.cells[i].sequences) != blk(c.cells[j].sequences)
-//@   requires forall j int :: 0 <= j && j < len(c.cells) ==> c.cells[j].sequences == nil || (blk(c.cells[j].sequences) != blk(c.curSequences) && blk(c.cells[j].sequences) != blk(c.opts.Except))
-//@   requires forall j int, v int :: 0 <= j && j < len(c.cells) && inseq(c.cells[j].sequences, v) ==> has(c.cellRanges, v) && c.cellRanges[v].min <= j && j <= c.cellRanges[v].max
 //@   requires forall v int :: has(c.cellRanges, v) && c.cellRanges[v].min <= c.cellRanges[v].max ==> 0 <= c.cellRanges[v].min && c.cellRanges[v].max < len(c.cells)
 //@   modifies c.cells[all], c.cellRanges, anyrow(c.cells[0].sequences)
-//@   ensures forall j int, v int :: 0 <= j && j < len(c.cells) && inseq(c.cells[j].sequences, v) ==> old(inseq(c.cells[j].sequences, v))
-//@   ensures forall j int :: 0 <= j && j < len(c.cells) ==> c.cells[j].pos == old(c.cells[j].pos) && blk(c.cells[j].sequences) == old(blk(c.cells[j].sequences))
-//@   ensures forall k int :: 0 <= k && k < len(c.curSequences) ==> c.curSequences[k] == old(c.curSequences[k])
-//@   ensures forall j int, v int :: 0 <= j && j < len(c.cells) && inseq(c.cells[j].sequences, v) ==> has(c.cellRanges, v) && c.cellRanges[v].min <= j && j <= c.cellRanges[v].max
+//@   ensures forall j int :: 0 <= j && j < len(c.cells) ==> c.cells[j].pos == old(c.cells[j].pos)
 //@   ensures forall v int :: has(c.cellRanges, v) && c.cellRanges[v].min <= c.cellRanges[v].max ==> 0 <= c.cellRanges[v].min && c.cellRanges[v].max < len(c.cells)
-//@   ensures forall i int, j int :: 0 <= i && i < len(c.cells) && 0 <= j && j < len(c.cells) && i != j ==> c.cells[i].sequences == nil || blk(c.cells[i].sequences) != blk(c.cells[j].sequences)
-//@   loop 1 invariant forall k int :: 0 <= k && k <= rangeindex ==> has(lowestPos, c.curSequences[k]) && lowestPos[c.curSequences[k]] <= c.curPositions[k]
-//@   loop 1 invariant forall v int :: has(lowestPos, v) ==> lowestPos[v] >= 0
-//@   loop 2 invariant forall j int, v int :: 0 <= j && j < len(c.cells) && inseq(c.cells[j].sequences, v) ==> old(inseq(c.cells[j].sequences, v))
-//@   loop 2 invariant forall j int :: 0 <= j && j < len(c.cells) ==> c.cells[j].pos == old(c.cells[j].pos) && blk(c.cells[j].sequences) == old(blk(c.cells[j].sequences)) && (c.cells[j].sequences == nil <==> old(c.cells[j].sequences == nil))
-//@   loop 2 invariant forall k int :: 0 <= k && k < len(c.curSequences) ==> c.curSequences[k] == old(c.curSequences[k])
-//@   loop 2 invariant forall j int, v int :: 0 <= j && j < len(c.cells) && inseq(c.cells[j].sequences, v) ==> has(c.cellRanges, v) && c.cellRanges[v].min <= j && j <= c.cellRanges[v].max
+//@   loop 2 invariant forall j int :: 0 <= j && j < len(c.cells) ==> c.cells[j].pos == old(c.cells[j].pos)
 //@   loop 2 invariant forall v int :: has(c.cellRanges, v) && c.cellRanges[v].min <= c.cellRanges[v].max ==> 0 <= c.cellRanges[v].min && c.cellRanges[v].max < len(c.cells)
-//@   loop 2 invariant forall v int :: has(lowestPos, v) ==> lowestPos[v] >= 0
+//@   loop 3 invariant (i <= oldRange.max + 1 || i == oldRange.min) && (oldRange.min <= oldRange.max ==> 0 <= oldRange.min && oldRange.max < len(c.cells))
 //@   loop 3 invariant oldRange.min <= i && (newRange.min == 9223372036854775807 && newRange.max == 0 || (oldRange.min <= newRange.min && newRange.min <= newRange.max && newRange.max < i))
-//@   loop 3 invariant forall j int, v int :: 0 <= j && j < len(c.cells) && inseq(c.cells[j].sequences, v) ==> old(inseq(c.cells[j].sequences, v))
-//@   loop 3 invariant forall j int :: 0 <= j && j < len(c.cells) ==> c.cells[j].pos == old(c.cells[j].pos) && blk(c.cells[j].sequences) == old(blk(c.cells[j].sequences)) && (c.cells[j].sequences == nil <==> old(c.cells[j].sequences == nil))
-//@   loop 3 invariant forall k int :: 0 <= k && k < len(c.curSequences) ==> c.curSequences[k] == old(c.curSequences[k])
-//@   loop 3 invariant forall j int, v int :: 0 <= j && j < len(c.cells) && inseq(c.cells[j].sequences, v) ==> has(c.cellRanges, v) && c.cellRanges[v].min <= j && j <= c.cellRanges[v].max
+//@   loop 3 invariant forall j int :: 0 <= j && j < len(c.cells) ==> c.cells[j].pos == old(c.cells[j].pos)
 //@   loop 3 invariant forall v int :: has(c.cellRanges, v) && c.cellRanges[v].min <= c.cellRanges[v].max ==> 0 <= c.cellRanges[v].min && c.cellRanges[v].max < len(c.cells)
-//@   loop 3 invariant forall j int :: oldRange.min <= j && j < i && inseq(c.cells[j].sequences, seq) ==> newRange.min <= j && j <= newRange.max
 
 // ---- moveCells (trusted: View/Copy row semantics of the backend, assumption A-rows): copies
 // ---- the K/V rows [src, src+length) to [dst, dst+length) in order.
@@ -287,12 +250,14 @@ package kvcache
 //@   loop 2 invariant forall j int :: pendingLen == 0 || j >= pendingDst ==> c.ghost_dat[j] == j
 //@   loop 2 invariant forall j int, g int :: 0 <= j && j < dst && (pendingLen == 0 || j < pendingDst || j >= pendingDst + pendingLen) && g == c.ghost_dat[j] && len(c.cells[j].sequences) != 0 ==> 0 <= g && g < len(c.cells) && c.cells[j].pos == old(c.cells[g].pos) && c.cells[j].sequences == old(c.cells[g].sequences)
 //@   loop 2 invariant forall j int :: dst <= j && j <= src ==> (j == src && len(c.cells[j].sequences) == 0) || (c.cells[j].pos == old(c.cells[j].pos) && c.cells[j].sequences == old(c.cells[j].sequences))
-//@   loop 2 invariant forall j int :: pendingDst <= j && j < pendingDst + pendingLen ==> len(c.cells[j].sequences) != 0 && c.cells[j].pos == old(c.cells[j-pendingDst+pendingSrc].pos) && c.cells[j].sequences == old(c.cells[j-pendingDst+pendingSrc].sequences)
 //@   loop 2 invariant forall j int :: src < j && j < len(c.cells) ==> len(c.cells[j].sequences) == 0
 //@   loop 2 invariant forall i int :: pendingSrc <= i && i < pendingSrc + pendingLen ==> c.cells[i-pendingSrc+pendingDst].pos == old(c.cells[i].pos) && c.cells[i-pendingSrc+pendingDst].sequences == old(c.cells[i].sequences)
 //@   loop 3 invariant dst <= src && src < len(c.cells) && (pendingLen > 0 ==> src <= pendingSrc)
 //@   loop 3 invariant forall j int :: src < j && j < len(c.cells) ==> len(c.cells[j].sequences) == 0
-//@   assert-at call Close #2 : forall j int, g int :: 0 <= j && j < len(c.cells) && g == c.ghost_dat[j] && len(c.cells[j].sequences) != 0 ==> 0 <= g && g < len(c.cells) && c.cells[j].pos == old(c.cells[g].pos) && c.cells[j].sequences == old(c.cells[g].sequences)
+// (Close #1 is the early return for a cache without layers, added by fix bff31ff73; #2 closes a
+// full context inside the loop; #3 is the final one)
+//@   assume-at call MaxGraphNodes #1 : 0 <= layers && layers <= 4294967296   -- range assumption: layers counts entries of c.keys, between 0 and 2^32 (the counter and 6*layers do not wrap)
+//@   assert-at call Close #3 : forall j int, g int :: 0 <= j && j < len(c.cells) && g == c.ghost_dat[j] && len(c.cells[j].sequences) != 0 ==> 0 <= g && g < len(c.cells) && c.cells[j].pos == old(c.cells[g].pos) && c.cells[j].sequences == old(c.cells[g].sequences)
 //@   loop 4 invariant forall j int, g int :: 0 <= j && j < len(c.cells) && g == c.ghost_dat[j] && len(c.cells[j].sequences) != 0 ==> 0 <= g && g < len(c.cells) && c.cells[j].pos == old(c.cells[g].pos) && c.cells[j].sequences == old(c.cells[g].sequences)
 //@   loop 5 invariant forall j int, g int :: 0 <= j && j < len(c.cells) && g == c.ghost_dat[j] && len(c.cells[j].sequences) != 0 ==> 0 <= g && g < len(c.cells) && c.cells[j].pos == old(c.cells[g].pos) && c.cells[j].sequences == old(c.cells[g].sequences)
 //@   loop 3 invariant forall j int :: dst <= j && j <= src ==> (j == src && len(c.cells[j].sequences) == 0) || (c.cells[j].pos == old(c.cells[j].pos) && c.cells[j].sequences == old(c.cells[j].sequences))
